@@ -48,7 +48,7 @@ Proof.
   - apply (tail_ok_snoc [x22; x4e; x61; x4e] x22). reflexivity.
   - apply (tail_ok_snoc [x22; x2b; x49; x6e; x66] x22). reflexivity.
   - apply (tail_ok_snoc [x22; x2d; x49; x6e; x66] x22). reflexivity.
-  - apply andb_true_iff in H as [H _]. now apply tok_okb_tail.
+  - apply andb_true_iff in H as [H _]. apply andb_true_iff in H as [H _]. now apply tok_okb_tail.
 Qed.
 Lemma bool_tail b : tail_ok (atxt (bool_atom b)).
 Proof. destruct b; cbn; [apply (tail_ok_snoc [x74; x72; x75] x65)|apply (tail_ok_snoc [x66; x61; x6c; x73] x65)]; reflexivity. Qed.
@@ -101,7 +101,7 @@ Lemma cplx_eq re im ge0 b : ap_complex sp re im ge0 b = add_sep sp b ++ atxt (cp
 Proof. unfold ap_complex, ap_raw, cplx_atom. cbn [atxt]. now rewrite <- !app_assoc. Qed.
 
 Lemma raw_tail t : raw_okb t = true -> tail_ok t.
-Proof. unfold raw_okb. intros H. apply andb_true_iff in H as [H _]. apply andb_true_iff in H as [H _]. now apply tok_okb_tail. Qed.
+Proof. unfold raw_okb. intros H. apply andb_true_iff in H as [H _]. apply andb_true_iff in H as [H _]. apply andb_true_iff in H as [H _]. now apply tok_okb_tail. Qed.
 Lemma null_tail : tail_ok s_null.
 Proof. apply (tail_ok_snoc [x6e; x75; x6c] x6c). reflexivity. Qed.
 End S.
